@@ -2,7 +2,7 @@ INIT Init
 NEXT Next
 CONSTANTS
   MaxCbs = 2
-  Kinds = {"ok", "exc", "base"}
+  Kinds = {"ok", "exc", "base", "reraise"}
   Routes = {"direct", "resource", "resource2", "ctxtd"}
 INVARIANT MonOk
 INVARIANT AllRan
